@@ -247,11 +247,17 @@ theorem qsortAux_length (lt : α → α → Bool) : ∀ (f : Nat) (xs : List α)
         | none => rw [h1] at h; simp at h
         | some r =>
           rw [h1, Option.bind_some] at h
-          cases h2 : qsortAux lt f r.1 a (r.2.2 - a) with
-          | none => rw [h2] at h; simp at h
-          | some xs' =>
-            rw [h2, Option.bind_some] at h
-            rw [ih xs' _ _ ys h, ih r.1 _ _ xs' h2, partLoop_length lt p _ _ xs _ _ r h1]
+          split at h
+          · cases h2 : qsortAux lt f r.1 a (r.2.2 - a) with
+            | none => rw [h2] at h; simp at h
+            | some xs' =>
+              rw [h2, Option.bind_some] at h
+              rw [ih xs' _ _ ys h, ih r.1 _ _ xs' h2, partLoop_length lt p _ _ xs _ _ r h1]
+          · cases h2 : qsortAux lt f r.1 r.2.1 (a + n - r.2.1) with
+            | none => rw [h2] at h; simp at h
+            | some xs' =>
+              rw [h2, Option.bind_some] at h
+              rw [ih xs' _ _ ys h, ih r.1 _ _ xs' h2, partLoop_length lt p _ _ xs _ _ r h1]
 
 theorem qsortList_length (lt : α → α → Bool) {xs ys : List α} (h : qsortList lt xs = some ys) : ys.length = xs.length :=
   qsortAux_length lt _ xs _ _ ys h
